@@ -111,7 +111,9 @@ pub fn judge_enc(
                         // the PEC is the last written byte, so measure where the writing stopped
                         let r2 = run_enc(ctx, call, dst, 1024, 2);
                         let end = r.touched().map(|t| t.1).unwrap_or(0).max(r2.touched().map(|t| t.1).unwrap_or(0));
-                        if end != n {
+                        // with a previous packet in the buffer a rewritten byte may keep its value:
+                        // then only "nothing beyond the length" can be measured
+                        if (prefill_active() && end > n) || (!prefill_active() && end != n) {
                             j.viols.push(("framing", format!("{}: bytes were written up to offset {} but the reported length is {}", call.name(), end, n)));
                         }
                         for k in 3..=n.min(b.len()) {
@@ -409,6 +411,15 @@ pub fn one(acc: &mut Acc, prop: &'static str, ctx: &MCTPSMBusContext, probe: &MC
 }
 
 pub fn replay_enc(prop: &str, case: &Value) -> Result<ReplayOut, String> {
+    if case["check"].as_str() == Some("encseq") {
+        let cfg: Cfg = get_de(case, "cfg")?;
+        let history: Vec<Event> = get_de(case, "history")?;
+        let call: EncCall = get_de(case, "call")?;
+        let dst = get_u64(case, "dst")? as u8;
+        let reuse = case["reuse"].as_bool().unwrap_or(false);
+        let j = judge_encseq(prop, &cfg, &history, &call, dst, reuse, true);
+        return Ok(ReplayOut { violations: j.viols.into_iter().map(|(k, d)| format!("{}: {}", k, d)).collect(), observed: j.observed });
+    }
     let spec: CtxSpec = get_de(case, "spec")?;
     let call: EncCall = get_de(case, "call")?;
     let dst = get_u64(case, "dst")? as u8;
@@ -421,6 +432,152 @@ pub fn replay_enc(prop: &str, case: &Value) -> Result<ReplayOut, String> {
     let eid_resp = build_ref(&spec).eid_resp;
     let j = judge_enc(prop, &ctx, &probe, spec.cfg.addr, eid_resp, &call, dst, variant, true);
     Ok(ReplayOut { violations: j.viols.into_iter().map(|(k, d)| format!("{}: {}", k, d)).collect(), observed: j.observed })
+}
+
+// ---------------------------------------------------------------------------
+// ENCSEQ: explicit exploration of encoder-call sequences on one context
+// ---------------------------------------------------------------------------
+
+pub const SEQ_OWN: u8 = 0x23;
+
+/// The alphabet: 20 encoder calls (valid, refused, lengths related by 128 and
+/// 256, same vendor number in both formats, responses with every kind of
+/// stored state) x 3 destinations (0x34, its top-bit twin 0xB4, its parity
+/// twin 0x35), plus 5 non-encoder events (accessor stores, a processed
+/// assignment, the peer's Set Endpoint ID response).
+pub fn encseq_alphabet() -> Vec<Event> {
+    use EncCall::*;
+    let calls: Vec<EncCall> = vec![
+        Vendor { fmt: 0, data: 0x1AF4, num: 1, msg: vec![0x51; 4] },
+        Vendor { fmt: 0, data: 0x1AF4, num: 1, msg: vec![0x52; 4 + 128] },
+        Vendor { fmt: 0, data: 0x1AF4, num: 1, msg: vec![0x53; 260] },
+        Vendor { fmt: 0, data: 0xC0DE, num: 1, msg: vec![0x54; 4] },
+        Vendor { fmt: 0, data: 0xC0DE, num: 1, msg: vec![0x55; 300] },
+        Vendor { fmt: 1, data: 0x0000_1AF4, num: 1, msg: vec![0x56; 4] },
+        ReqGetEid,
+        ReqSetEid { op: 0, eid: 0x56 },
+        ReqSetEid { op: 0, eid: 0x00 },
+        ReqRouting { entries: vec![[0x03, 0x04, 0x10, 0x40], [0x03, 0x04, 0x14, 0x40]], via_new: false },
+        ReqRouting { entries: vec![[0x01, 0x01, 0x20, 0x41]; 8], via_new: false },
+        RespSetEid { cc: 0, assign: 0, alloc: 0 },
+        RespSetEid { cc: 0, assign: 1, alloc: 1 },
+        RespGetEid { cc: 0, ty: 0, idty: 2, fair: true },
+        RespVersion { cc: 0 },
+        RespMsgTypes { cc: 0, types: vec![0xBB; 30] },
+        RespMsgTypes { cc: 0, types: vec![0xBB; 31] },
+        RespUuid { cc: 0, uuid: [0xCC; 16] },
+        Raw { half: Half::Req, writer: Writer::Spdm, hdr: None, data: vec![0x57; 4] },
+        Raw { half: Half::Resp, writer: Writer::Spdm, hdr: Some(vec![0x11]), data: vec![0x58; 131] },
+    ];
+    let mut v = vec![];
+    for c in &calls {
+        for dst in [0x34u8, 0xB4, 0x35] {
+            v.push(Event::Encode { call: c.clone(), dst });
+        }
+    }
+    v.push(Event::SetEidResp(0x41));
+    v.push(Event::SetEidResp(0x42));
+    v.push(Event::SetEidReq(0x56));
+    v.push(Event::Process(set_eid_req(0x10, SEQ_OWN, 0, 0x56)));
+    // the peer at 0x34 confirms the EID we submitted with ReqSetEid{eid: 0x56}
+    v.push(Event::Process(forge_response(0x34, SEQ_OWN, 0, 0x01, 0, &[0x00, 0x56, 0x00])));
+    v
+}
+
+fn encseq_cfg() -> Cfg {
+    Cfg { addr: SEQ_OWN, msg_types: vec![0x7E, 0x05], vendors: vec![(0, 0x1414, 4), (1, 0xDEADBEEF, 9)] }
+}
+
+/// Judge the last call of a sequence: the history (all but the last event) is
+/// replayed on a fresh context; if the event just before the last is an encoder
+/// call and `reuse` is set, its output stays in the buffer the last call writes to.
+fn judge_encseq(prop: &str, cfg: &Cfg, history: &[Event], call: &EncCall, dst: u8, reuse: bool, want_obs: bool) -> Judged {
+    let owned = Owned::new(cfg);
+    let ps = probe_spec();
+    let po = Owned::new(&ps.cfg);
+    let probe = if prop == "C04" { build(&po, &ps.history) } else { po.ctx() };
+    let spec = CtxSpec { cfg: cfg.clone(), history: history.to_vec() };
+    let eid_resp = build_ref(&spec).eid_resp;
+    let mut prefill = None;
+    let ctx = if reuse && matches!(history.last(), Some(Event::Encode { .. })) {
+        let ctx = build(&owned, &history[..history.len() - 1]);
+        if let Some(Event::Encode { call: pc, dst: pd }) = history.last() {
+            let r = run_enc(&ctx, pc, *pd, 1024, 2);
+            if let EncOut::Ok(n) = r.out {
+                prefill = Some(r.buf[..n.min(r.buf.len())].to_vec());
+            }
+        }
+        ctx
+    } else {
+        build(&owned, history)
+    };
+    set_prefill(prefill);
+    let j = judge_enc(prop, &ctx, &probe, cfg.addr, eid_resp, call, dst, 0, want_obs);
+    set_prefill(None);
+    j
+}
+
+pub fn sweep_encseq(run: &mut Run, prop: &'static str) {
+    let depth: u32 = if run.tier.thorough() { 4 } else { 3 };
+    let alphabet = encseq_alphabet();
+    let a = alphabet.len() as u64;
+    let nenc = alphabet.iter().filter(|e| matches!(e, Event::Encode { .. })).count() as u64;
+    let cfg = encseq_cfg();
+    // sequences of length 1..=depth whose last event is an encoder call; x {fresh buffer, reused buffer}
+    let total: u64 = (1..=depth).map(|d| a.pow(d - 1) * nenc).sum();
+    run.bound("encoder_sequence_depth", depth as u64);
+    run.bound("encoder_sequence_alphabet", a);
+    run.sweep(
+        &format!("ENCSEQ: every sequence of length <= {} over {} events ({} encoder calls x 3 destinations, 5 state events) ending in an encoder call, x fresh/reused output buffer", depth, a, nenc / 3),
+        total * 2,
+        |acc, k| {
+            let reuse = k % 2 == 1;
+            let mut r = k / 2;
+            let mut len = 1u32;
+            loop {
+                let c = a.pow(len - 1) * nenc;
+                if r < c {
+                    break;
+                }
+                r -= c;
+                len += 1;
+            }
+            let last = &alphabet[(r % nenc) as usize];
+            r /= nenc;
+            let mut history = vec![];
+            for _ in 1..len {
+                history.push(alphabet[(r % a) as usize].clone());
+                r /= a;
+            }
+            history.reverse();
+            let Event::Encode { call, dst } = last else { return };
+            acc.evals += 1;
+            if reuse && !matches!(history.last(), Some(Event::Encode { .. })) {
+                return; // nothing to reuse: identical to the fresh-buffer case
+            }
+            let sampled = k % 100_003 == 7;
+            let j = judge_encseq(prop, &cfg, &history, call, *dst, reuse, sampled);
+            acc.trans += history.len() as u64 + if prop == "C16" { 3 } else { 1 };
+            acc.validated += 1;
+            let f = Fnv::default().u64(fp(&history)).u64(fp(call)).u64(*dst as u64 | ((reuse as u64) << 8)).finish();
+            acc.state(f);
+            if j.produced && len >= 2 {
+                acc.nontrivial(f);
+            }
+            acc.outcome2("encseq", if j.produced { "ok" } else { "no-packet" });
+            if let Some(kf) = j.known {
+                acc.known(kf, || json!({"call": call, "dst": dst}));
+            }
+            if sampled {
+                acc.sample(|| json!({"history": history, "call": call, "dst": dst, "reused_buffer": reuse, "observed": j.observed}));
+            }
+            for (kind, d) in j.viols {
+                acc.violation(len as u64 + reuse as u64, kind, format!("after {} earlier call(s)/event(s){}: {}", len - 1, if reuse { ", output buffer reused" } else { "" }, d), || {
+                    json!({"prop": prop, "check": "encseq", "cfg": cfg, "history": history, "call": call, "dst": dst, "reuse": reuse})
+                });
+            }
+        },
+    );
 }
 
 fn spaces_sweep(run: &mut Run, prop: &'static str, spaces: &[CallSpace], addrs: &Addrs, nspecs: u64) {
@@ -468,6 +625,7 @@ pub fn run_c03(run: &mut Run) {
     let (n, f) = sized_space(255);
     sweep_enc(run, "C03", "writers x every data length x walking contents", n, &f, &Addrs::List(vec![(0x23, 0x34), (0x7F, 0x01)]), 2);
     c03_responses(run);
+    sweep_encseq(run, "C03");
 }
 
 /// C03 also covers the packets the library encodes on its own: the responses
@@ -556,6 +714,7 @@ pub fn run_c04(run: &mut Run) {
     // every size, but only backgrounds + a thinned walking byte (content does not matter to framing)
     let (n, f) = sized_space(300);
     sweep_enc(run, "C04", "writers x every data length 0..=300 x contents", n, &f, &Addrs::List(vec![(0x55, 0x2A)]), 1);
+    sweep_encseq(run, "C04");
 }
 
 pub fn run_c05(run: &mut Run) {
@@ -571,6 +730,7 @@ pub fn run_c05(run: &mut Run) {
         Addrs::List(vec![(0x23, 0x34), (0xFF, 0x80), (0x00, 0xFF)])
     };
     spaces_sweep(run, "C05", &sp, &a, 1);
+    sweep_encseq(run, "C05");
 }
 
 pub fn run_c06(run: &mut Run) {
@@ -578,9 +738,16 @@ pub fn run_c06(run: &mut Run) {
     run.assume("K-C06-QUERYHOP is attributed only when byte 10 is 0x0E and every other byte (PEC included) is as specified");
     let sp = request_spaces(run.tier);
     let a = pairs_or_lanes(run, Addrs::List(vec![(0x23, 0x34), (0x7F, 0x00)]));
-    spaces_sweep(run, "C06", &sp, &a, 1);
+    // on all four encoder contexts: their stored EIDs (0x42, 0x99, 0x3C) collide with argument values
+    // of the fully crossed spaces (seeded change C06-r3-1 refuses the EID the device itself holds)
+    let ns = if run.tier.thorough() { 1 } else { 4 };
+    spaces_sweep(run, "C06", &sp, &a, ns);
+    if run.tier.thorough() {
+        spaces_sweep(run, "C06", &sp, &Addrs::List(vec![(0x23, 0x34)]), 4);
+    }
     let basic: Vec<EncCall> = basic_calls().into_iter().filter(|c| c.is_request()).collect();
     sweep_enc(run, "C06", "request tuples x 5 pairs x 4 ctxs", basic.len() as u64, &|i| basic[i as usize].clone(), &five_pairs(), 4);
+    sweep_encseq(run, "C06");
 }
 
 /// C07 adds the stored-EID dimension through context histories.
@@ -640,6 +807,7 @@ pub fn run_c07(run: &mut Run) {
             one(acc, "C07", &ctx, &probe, &spec, addr, eid_resp, call, 0x52, i);
         }
     });
+    sweep_encseq(run, "C07");
 }
 
 pub fn run_c08(run: &mut Run) {
@@ -648,6 +816,7 @@ pub fn run_c08(run: &mut Run) {
     spaces_sweep(run, "C08", &sp, &Addrs::List(vec![(0x23, 0x34)]), 1);
     let basic: Vec<EncCall> = basic_calls().into_iter().filter(|c| !c.is_request() && !c.is_response()).collect();
     sweep_enc(run, "C08", "vendor/raw tuples x 5 pairs x 4 ctxs", basic.len() as u64, &|i| basic[i as usize].clone(), &five_pairs(), 4);
+    sweep_encseq(run, "C08");
 }
 
 pub fn run_c16(run: &mut Run) {
@@ -662,6 +831,7 @@ pub fn run_c16(run: &mut Run) {
     sweep_enc(run, "C16", "writers x every data length 0..=300 x contents", n, &f, &Addrs::List(vec![(0x55, 0x2A)]), 1);
     // refusal axis: reserved EIDs x 4 operations x all 128x128 addresses
     sweep_enc(run, "C16", "set_endpoint_id EID in {0x00,0xFF,0x01,0xFE} x 4 ops x 128x128", 16, &|i| EncCall::ReqSetEid { op: (i / 4) as u8, eid: [0x00, 0xFF, 0x01, 0xFE][(i % 4) as usize] }, &Addrs::All7, 1);
+    sweep_encseq(run, "C16");
 }
 
 pub fn replay_c03(c: &Value) -> Result<ReplayOut, String> {
